@@ -75,8 +75,25 @@ def sub_general(case):
     real = trajgen.realise(case["traj"])
     timed = real.T is not None
     obj = real.build(case["traj"]["pre"], timed=timed)
+    sh = case.get("shared")
+    if sh:
+        # a second trajectory built from the very same arrays / matrices and projected first (onto another plane):
+        # the projection of this one must start from the values it was created with
+        if real.mode == "pq":
+            kw = dict(positions_xyz=real.P.copy(), orientations_quat_wxyz=real.Q.copy())
+        else:
+            kw = dict(poses_se3=[T.copy() for T in real.poses])
+        if timed:
+            kw["timestamps"] = real.T.copy()
+        cls = PoseTrajectory3D if timed else PosePath3D
+        other = cls(**kw)
+        obj = cls(**kw)
+        for v in case["traj"]["pre"]:
+            getattr(other, v), getattr(obj, v)
+        other.project(PLANE[sh])
+        check_projected(other, real.P, real.T, sh, real.n, "projection (first of two trajectories built from the same arrays)")
     obj.project(PLANE[plane])
-    check_projected(obj, real.P, real.T, plane, real.n, "projection")
+    check_projected(obj, real.P, real.T, plane, real.n, "projection" + (" (after a trajectory built from the same arrays was projected onto %s)" % sh if sh else ""))
     for k, other in enumerate(case["second"]):
         # "the same object": also after other operations were applied to it in between
         for op in (case.get("between") or [])[k:k + 2]:
@@ -184,6 +201,7 @@ st_general = st.integers(1, 10).flatmap(lambda n: st.fixed_dictionaries({
         lambda a, b, s: {"q": rm.R_to_quat(rm.rodrigues(np.array([0, 0, 1.0]) * a) @ rm.rodrigues(np.array([0, 1.0, 0]) * s * math.pi / 2) @ rm.rodrigues(np.array([1.0, 0, 0]) * b)).tolist()},
         gen.fl(-3.1, 3.1), gen.fl(-3.1, 3.1), st.sampled_from([1.0, -1.0])))),
     "second": st.lists(st.sampled_from(["xy", "xz", "yz"]), min_size=1, max_size=2),
+    "shared": st.sampled_from([None, None, None, "xy", "xz", "yz"]),
     "between": st.lists(st.sampled_from(["tl", "tr", "scale", "ids", "origin", "read"]), max_size=3),
 }))
 st_planar = st.fixed_dictionaries({
